@@ -13,8 +13,8 @@ from vlib.workload import case_rng, per_shard
 ID = "C16"
 LEVEL = "exploration"
 RULE = ("operation sequences over {insert fresh key, lookup ([] and get(default) alternating)} with keys from the closed family "
-        "3 base classes x {itself, NewType, TypeAliasType, string-valued alias, Final[...], ForwardRef to it, ForwardRef with the same name in another module, ForwardRef with the same name and no module}: all sequences up to "
-        "the tier's length over one base (exhaustive), random sequences up to length 40 over all 24 keys; after every sequence a "
+        "3 base classes x {itself, NewType, TypeAliasType, string-valued alias, Final[...], ForwardRef to it, ForwardRef with the same name in another module, ForwardRef with the same name and no module, NewType over NewType, NewType over alias, alias of NewType}: all sequences up to "
+        "the tier's length over one base (exhaustive, for the one-layer family and for the layered wrappers next to what they peel through), random sequences up to length 40 over all 33 keys; after every sequence a "
         "full probe of all keys ([] / get / in for stored keys) is compared with the write-once reference model; one evaluation = "
         "one sequence; distinct = distinct sequence; non-trivial = contains at least one insert and one lookup")
 ASSUMPTIONS = [
@@ -39,6 +39,10 @@ F0 = typing.Final[B0]; F1 = typing.Final[B1]; F2 = typing.Final[B2]
 R0 = typing.ForwardRef("B0", module=__name__); R1 = typing.ForwardRef("B1", module=__name__); R2 = typing.ForwardRef("B2", module=__name__)
 X0 = typing.ForwardRef("B0", module="some_other_module"); X1 = typing.ForwardRef("B1", module="some_other_module"); X2 = typing.ForwardRef("B2", module="some_other_module")
 U0 = typing.ForwardRef("B0"); U1 = typing.ForwardRef("B1"); U2 = typing.ForwardRef("B2")
+# several layers: the unwrapped form is the FULLY peeled one, whatever is stored under a layer in between
+NN0 = typing.NewType("NN0", N0); NN1 = typing.NewType("NN1", N1); NN2 = typing.NewType("NN2", N2)
+NA0 = typing.NewType("NA0", A0); NA1 = typing.NewType("NA1", A1); NA2 = typing.NewType("NA2", A2)
+AN0 = typing.TypeAliasType("AN0", N0); AN1 = typing.TypeAliasType("AN1", N1); AN2 = typing.TypeAliasType("AN2", N2)
 """
 MODNAME = "vctx_family"
 _MISSING = object()
@@ -62,6 +66,9 @@ def family():
             "F": (getattr(mod, f"F{b}"), B, None),
             "R": (fr, None, None),                     # a ForwardRef key never falls through
             "X": (getattr(mod, f"X{b}"), None, None),  # same name, ANOTHER module: names nothing in this family
+            "NN": (getattr(mod, f"NN{b}"), B, None),   # NewType over NewType: peels to the class, not to the NewType in between
+            "NA": (getattr(mod, f"NA{b}"), B, None),   # NewType over alias
+            "AN": (getattr(mod, f"AN{b}"), B, None),   # alias of NewType
             "U": (getattr(mod, f"U{b}"), None, None),  # same name, NO module: a key of its own; whether it "names" B is left open (see AMBIGUOUS)
         }
     return keys
@@ -206,15 +213,19 @@ def run_shard(sh):
     keys = family()
     table = key_ids(keys)
     fam0 = [k for k in table if k.endswith("0")]
-    symbols = [(op, kid) for kid in fam0 for op in ("i", "l")]
+    # two alphabets, each enumerated exhaustively: the one-layer family, and the layered wrappers next to what they peel through
+    core = [k for k in fam0 if k[:-1] in ("B", "N", "A", "S", "F", "R", "X", "U")]
+    layers = [k for k in fam0 if k[:-1] in ("B", "N", "A", "NN", "NA", "AN")]
 
     def all_sequences():
         idx = 0
-        for n in range(1, plan["maxlen"] + 1):
-            for seq in itertools.product(symbols, repeat=n):
-                idx += 1
-                if idx % sh.nshards == sh.shard:
-                    yield seq
+        for alphabet in (core, layers):
+            symbols = [(op, kid) for kid in alphabet for op in ("i", "l")]
+            for n in range(1, plan["maxlen"] + 1):
+                for seq in itertools.product(symbols, repeat=n):
+                    idx += 1
+                    if idx % sh.nshards == sh.shard:
+                        yield seq
 
     if sh.only is None:
         for seq in all_sequences():
